@@ -18,6 +18,17 @@ type CharClass struct {
 
 func (t *CharClass) RunPass(ctx *Context, pass Pass) {
 	RunPass(ctx, t.CharClassItems, pass)
+
+	if pass == Check {
+		for _, item := range t.CharClassItems {
+			if item.From > item.To {
+				ctx.Errs.Errorf(
+					ctx.Position(t),
+					"invalid character range: lower bound is above the upper bound")
+				break
+			}
+		}
+	}
 }
 
 func (t *CharClass) GetRanges() []rang3.Range {
